@@ -29,10 +29,9 @@ func (msg *MsgSendToVestingAccount) Type() string {
 }
 
 func (msg *MsgSendToVestingAccount) GetSigners() []sdk.AccAddress {
-	owner, err := sdk.AccAddressFromBech32(msg.Owner)
-	if err != nil {
-		panic(err)
-	}
+	// a malformed address gives an empty signer instead of a panic (as in the messages of cosmos-sdk): ValidateBasic
+	// reports it, and x/authz asks a wrapped message for its signers before anything validated it
+	owner, _ := sdk.AccAddressFromBech32(msg.Owner)
 	return []sdk.AccAddress{owner}
 }
 
